@@ -6,7 +6,7 @@ ENC = ["cminx.aggregator.DocumentationAggregator.process_ct_add_test", "process_
 
 
 def ob(cmd, slots, L, documented=True, timeout=300):
-    n = sum(1 for s in slots if s in ("n", "x"))
+    n = sum(1 for s in slots if s in ("n", "x")) + 2 * sum(1 for s in slots if s == "g")
     return vf.CH(f"C11.a {cmd}({' '.join(slots)}) documented={documented} L={L}", "c11_test.py",
                  dict(CMD=cmd, SLOTS=tuple(slots), L=L, DOCUMENTED=documented, NCP=n * L), timeout=timeout, encodes=ENC,
                  symbolic="the test name and every further argument (arbitrary text without separators; may equal the name, 'name', 'expectfail', or contain a keyword)",
@@ -27,6 +27,9 @@ def build(tier):
             if L >= 10 and sum(1 for x in p if x in ("n", "x")) > 3:
                 continue          # four pieces of 10 symbolic characters each did not finish in 1800 s (stated, not claimed)
             obs.append(ob("add_test", p, L, timeout=t))
+    # a parenthesised group among the further arguments of add_test: shown, in place
+    obs.append(ob("add_test", ["NAME", "n", "x", "g", "x"], 2, timeout=t))
+    obs.append(ob("add_test", ["g", "NAME", "n"], 2, timeout=t))
     obs.append(ob("ct_add_test", ["NAME", "n", "x"], 2, documented=False, timeout=t))
     obs.append(ob("add_test", ["NAME", "n", "x"], 2, documented=False, timeout=t))
     # C11.b nesting of sections in a test's function: inductive steps on pending / definition stack
